@@ -24,4 +24,17 @@ def usizeOkB (endv n m : Nat) : Bool := endv != usizeMax || (n < endv && m < end
 /-- the width word of a `case` line names one of the four index types -/
 def widthOkB (w : String) : Bool := w == "w=8" || w == "w=16" || w == "w=32" || w == "w=64"
 
+/-- the optional third word of `extend_with_edges` / `from_edges`: absent, or one of the six item forms
+`f0` … `f5` of `IntoWeightedEdge` (owned / borrowed triples, raw `Ix` ids, `(a, b, &w)`, owned / borrowed pairs) -/
+def formOkB (form : List String) : Bool :=
+  match form with
+  | [] => true
+  | [f] => f == "f0" || f == "f1" || f == "f2" || f == "f3" || f == "f4" || f == "f5"
+  | _ => false
+
+/-- judge of a `law <name> … => <answer>` line: the harness checked a law of the public API against the
+implementation itself and answers `ok` or `VIOLATED <why>`; only `ok` is accepted -/
+def lawVerdict (name impl : String) : Option String :=
+  if impl == "ok" then none else some s!"law {name}: {impl}"
+
 end PetgraphModel.C01Checks
